@@ -277,3 +277,57 @@ def _run_resolve_atomnames(kf):
             if len(names) != len(set(names)):
                 return True
     return False
+
+
+def _frag_lists(record):
+    rf = record.get("record_fields") or record
+    return [toks for _, toks in (rf.get("frags") or [])]
+
+
+@scope("stereo.cut_through_marked_bond")
+def _cut_marked(record):
+    """a slash mark written next to a bonding descriptor (the marked bond itself is cut)"""
+    for toks in _frag_lists(record):
+        for i, t in enumerate(toks):
+            if t["k"] != "Z":
+                continue
+            if i + 1 < len(toks) and toks[i + 1]["k"] == "D":
+                return True
+            j = i - 1
+            if j >= 0 and toks[j]["k"] == "B":
+                j -= 1
+            if j >= 0 and toks[j]["k"] == "D" and not any(x["k"] == "A" for x in toks[:j]):
+                return True
+    return False
+
+
+@scope("stereo.cut_at_double_bond")
+def _cut_double(record):
+    """slash marks are present and some descriptor carries a double-bond order (a stereo double bond may be cut)"""
+    lists = _frag_lists(record)
+    if not any(t["k"] == "Z" for toks in lists for t in toks):
+        return False
+    for toks in lists:
+        for i, t in enumerate(toks):
+            if t["k"] == "D":
+                if i > 0 and toks[i - 1]["k"] == "B" and toks[i - 1]["v"] == "=":
+                    return True
+                if i + 1 < len(toks) and toks[i + 1]["k"] == "B" and toks[i + 1]["v"] == "=" and \
+                        not any(x["k"] == "A" for x in toks[:i]):
+                    return True
+    return False
+
+
+@witness_runner("stereo.relation")
+def _run_stereo_relation(kf):
+    from . import project
+    bad = False
+    for w in kf["witness"]:
+        o = project.run_resolve(w["text"])
+        if o["outcome"] != "ok":
+            bad = True
+            continue
+        rels = {t[4] for n in o["steps"][0]["fine"]["nodes"] for t in n["ez"]}
+        if rels != {w["expected_relation"]}:
+            bad = True
+    return bad
